@@ -1,7 +1,10 @@
 package main
 
 import (
+	"fmt"
 	"go/ast"
+	"go/token"
+	"regexp"
 	"strings"
 )
 
@@ -12,30 +15,53 @@ import (
 // guard conditions, assignments, returns, the order of the three cache writes.  No
 // line numbers, so moving or reformatting code does not disturb it; changing a
 // condition, an order or a returned error does.
+//
+// Names of LOCAL variables do not occur in the facts: every identifier that the parser
+// resolves to an object declared inside the function's body (`:=`, `var`, `range`,
+// parameters of function literals, local consts/types) is printed as a placeholder ‹k›,
+// k = order of first appearance in the emitted fact.  Resolution is by scope (go/parser's
+// object resolution), not by name: a local `url` that shadows the package `url` is a
+// placeholder where it means the variable and stays `url` where it means the package, and
+// two variables of the same name (`err` of an `if err := …` and the outer `err`) are two
+// placeholders.  Receivers, parameters (`ctx`, `node`, …), fields, methods, package-level
+// names and callees are kept.  Filters select statements structurally (by callee, by the
+// object a call's result was assigned to), never by the name of a local.
 func genRemote() {
-	l := newLean("Remote", "Control skeletons of readRemoteNodeContent and of the functions around it (C20).")
+	l := newLean("Remote", "Control skeletons of readRemoteNodeContent and of the functions around it (C20); local variables are placeholders ‹k›.")
 	tf := loadDir("taskfile")
 	root := loadDir(".")
 	lg := loadDir("internal/logger")
 	fl := loadDir("internal/flags")
 	cmd := loadDir("cmd/task")
 
-	emit := func(def string, p *pkgFiles, fn string, keep func(string) bool) {
+	// keep(lines, nz) → indices kept; nil = all
+	emit := func(def string, p *pkgFiles, fn string, keep func(lines []string, nz *normalizer) []bool) {
 		fd := p.funcDecl(fn)
 		if fd == nil || fd.Body == nil {
 			fatal("genRemote: function %s not found", fn)
 		}
-		lines := skeleton(fd.Body.List, 0)
+		nz := newNormalizer(fd)
+		lines := nz.skeleton(fd.Body.List, 0)
 		if keep != nil {
+			mask := keep(lines, nz)
 			var kept []string
-			for _, ln := range lines {
-				if keep(ln) {
+			for i, ln := range lines {
+				if mask[i] {
 					kept = append(kept, ln)
 				}
 			}
 			lines = kept
 		}
-		l.strList(def, wrapLines(lines, 96))
+		l.strList(def, wrapLines(renumber(lines), 96))
+	}
+	lineFilter := func(f func(s string) bool) func([]string, *normalizer) []bool {
+		return func(lines []string, _ *normalizer) []bool {
+			m := make([]bool, len(lines))
+			for i, s := range lines {
+				m[i] = f(s)
+			}
+			return m
+		}
 	}
 	emit("skeleton", tf, "Reader.readRemoteNodeContent", nil)
 	emit("readNodeContent", tf, "Reader.readNodeContent", nil)
@@ -47,20 +73,67 @@ func genRemote() {
 	emit("newNode", tf, "NewNode", nil)
 	emit("readTaskfile", root, "Executor.readTaskfile", nil)
 	emit("prompt", lg, "Logger.Prompt", nil)
-	// only the guards of Validate that concern the remote flags
-	emit("validateRemote", fl, "Validate", func(s string) bool {
-		return strings.HasPrefix(s, "if ") && (contains(s, "Download") || contains(s, "Offline") || contains(s, "ClearCache"))
-	})
-	// cmd/task run(): where --clear-cache sits relative to Setup
-	emit("runClearCache", cmd, "run", func(s string) bool {
-		return contains(s, "e.Setup()") || contains(s, "ClearCache") || contains(s, "cachePath")
+	// only the guards of Validate that concern the remote flags (package-level variables of internal/flags)
+	emit("validateRemote", fl, "Validate", lineFilter(func(s string) bool {
+		return strings.HasPrefix(s, "if ") && (mentionsIdent(s, "Download") || mentionsIdent(s, "Offline") || mentionsIdent(s, "ClearCache"))
+	}))
+	// cmd/task run(): where --clear-cache sits relative to Setup: the call of the method Setup, the
+	// `if` on flags.ClearCache and everything nested in it
+	emit("runClearCache", cmd, "run", func(lines []string, _ *normalizer) []bool {
+		m := make([]bool, len(lines))
+		inside := -1 // depth of the kept `if … ClearCache` line we are nested in
+		for i, s := range lines {
+			d := strings.Count(s[:len(s)-len(strings.TrimLeft(s, "| "))], "|")
+			if inside >= 0 && d > inside {
+				m[i] = true
+				continue
+			}
+			inside = -1
+			switch {
+			case mentionsIdent(s, "ClearCache"):
+				m[i] = true
+				if strings.HasPrefix(strings.TrimLeft(s, "| "), "if ") {
+					inside = d
+				}
+			case contains(s, ".Setup()"):
+				m[i] = true
+			}
+		}
+		return m
 	})
 	// C20 chains: the cache is consulted (and cached bytes are returned where no network is
-	// needed) before the context is looked at for the first time
-	emit("cacheBeforeCtx", tf, "Reader.readRemoteNodeContent", func(s string) bool {
-		return mentionsIdent(s, "ctx") || contains(s, "NewCacheNode") || contains(s, "cache.Read()") || contains(s, "return cachedBytes")
+	// needed) before the context is looked at for the first time.  Kept: statements that mention
+	// the parameter ctx, the call of NewCacheNode, the call of Read on the object NewCacheNode's
+	// result was assigned to, and every return of the object that call's result was assigned to.
+	emit("cacheBeforeCtx", tf, "Reader.readRemoteNodeContent", func(lines []string, nz *normalizer) []bool {
+		cacheObj := nz.assignedFrom(func(ce *ast.CallExpr) bool {
+			id, ok := ce.Fun.(*ast.Ident)
+			return ok && id.Name == "NewCacheNode"
+		})
+		if cacheObj == nil {
+			fatal("genRemote: readRemoteNodeContent no longer assigns the result of NewCacheNode to a local")
+		}
+		readCall := nz.token(cacheObj) + ".Read()"
+		bytesObj := nz.assignedFrom(func(ce *ast.CallExpr) bool {
+			se, ok := ce.Fun.(*ast.SelectorExpr)
+			if !ok || se.Sel.Name != "Read" || len(ce.Args) != 0 {
+				return false
+			}
+			id, ok := se.X.(*ast.Ident)
+			return ok && id.Obj == cacheObj
+		})
+		if bytesObj == nil {
+			fatal("genRemote: readRemoteNodeContent no longer assigns the result of <cache>.Read() to a local")
+		}
+		retBytes := "return " + nz.token(bytesObj)
+		m := make([]bool, len(lines))
+		for i, s := range lines {
+			m[i] = mentionsIdent(s, "ctx") || contains(s, "NewCacheNode(") || contains(s, readCall) || contains(s, retBytes)
+		}
+		return m
 	})
 	// … and one context — the one made in readTaskfile — is handed down unchanged to every node read
+	// (`ctx` is the name of the parameter in each of these functions)
 	var flow []string
 	for _, fn := range []string{"Reader.Read", "Reader.include", "Reader.readNode", "Reader.readNodeContent",
 		"Reader.readRemoteNodeContent", "HTTPNode.ReadContext", "RemoteExists"} {
@@ -68,7 +141,8 @@ func genRemote() {
 		if fd == nil || fd.Body == nil {
 			fatal("genRemote: function %s not found", fn)
 		}
-		for _, u := range identUses(fd.Body, "ctx") {
+		nz := newNormalizer(fd)
+		for _, u := range renumber(nz.identUses(fd.Body, "ctx")) {
 			flow = append(flow, fn+": "+u)
 		}
 	}
@@ -84,16 +158,22 @@ func genRemote() {
 				if !ok || fd.Body == nil {
 					continue
 				}
+				nz := newNormalizer(fd)
+				var calls []string
 				ast.Inspect(fd.Body, func(n ast.Node) bool {
 					if ce, ok := n.(*ast.CallExpr); ok {
 						if se, ok := ce.Fun.(*ast.SelectorExpr); ok {
-							if x, ok := se.X.(*ast.Ident); ok && x.Name == "context" {
-								makers = append(makers, dir+fname+" "+funcName(fd)+": "+src(ce))
+							// the package `context`: an identifier that resolves to no object of the file
+							if x, ok := se.X.(*ast.Ident); ok && x.Name == "context" && x.Obj == nil {
+								calls = append(calls, nz.src(ce))
 							}
 						}
 					}
 					return true
 				})
+				for _, c := range renumber(calls) {
+					makers = append(makers, dir+fname+" "+funcName(fd)+": "+c)
+				}
 			}
 		}
 	}
@@ -101,6 +181,123 @@ func genRemote() {
 	addMakers(tf, "taskfile/", "")
 	l.strList("ctxMakers", wrapLines(makers, 96))
 	l.write()
+}
+
+// normalizer prints nodes of one function with its local objects replaced by position
+// tokens ‹@pos›; renumber turns the tokens of a finished fact into ‹0›, ‹1›, … in order of
+// first appearance.
+type normalizer struct {
+	fd  *ast.FuncDecl
+	pos map[*ast.Object]token.Pos // declaration position of every local object (taken while all names are intact)
+}
+
+func newNormalizer(fd *ast.FuncDecl) *normalizer {
+	nz := &normalizer{fd: fd, pos: map[*ast.Object]token.Pos{}}
+	if fd.Body == nil {
+		return nz
+	}
+	ast.Inspect(fd.Body, func(n ast.Node) bool {
+		id, ok := n.(*ast.Ident)
+		if !ok || id.Obj == nil {
+			return true
+		}
+		if _, seen := nz.pos[id.Obj]; seen {
+			return true
+		}
+		switch id.Obj.Kind {
+		case ast.Var, ast.Con, ast.Typ:
+		default:
+			return true
+		}
+		// declared inside the body: not a receiver, parameter or result of the function itself, not package-level
+		if p := id.Obj.Pos(); p >= fd.Body.Pos() && p < fd.Body.End() {
+			nz.pos[id.Obj] = p
+		}
+		return true
+	})
+	return nz
+}
+
+func (nz *normalizer) local(obj *ast.Object) bool {
+	_, ok := nz.pos[obj]
+	return obj != nil && ok
+}
+
+func (nz *normalizer) token(obj *ast.Object) string {
+	return fmt.Sprintf("‹@%d›", int(nz.pos[obj]))
+}
+
+func (nz *normalizer) src(n ast.Node) string {
+	type saved struct {
+		id   *ast.Ident
+		name string
+	}
+	var sv []saved
+	ast.Inspect(n, func(m ast.Node) bool {
+		if id, ok := m.(*ast.Ident); ok && nz.local(id.Obj) {
+			sv = append(sv, saved{id, id.Name})
+			id.Name = nz.token(id.Obj)
+		}
+		return true
+	})
+	out := src(n)
+	for _, s := range sv {
+		s.id.Name = s.name
+	}
+	return out
+}
+
+// assignedFrom: the local object that the (first) result of the first call satisfying match is
+// assigned to (`x, err := call(…)`, `x = call(…)`, `var x = call(…)`)
+func (nz *normalizer) assignedFrom(match func(*ast.CallExpr) bool) *ast.Object {
+	var found *ast.Object
+	ast.Inspect(nz.fd.Body, func(n ast.Node) bool {
+		if found != nil {
+			return false
+		}
+		var lhs []ast.Expr
+		var rhs []ast.Expr
+		switch x := n.(type) {
+		case *ast.AssignStmt:
+			lhs, rhs = x.Lhs, x.Rhs
+		case *ast.ValueSpec:
+			for _, id := range x.Names {
+				lhs = append(lhs, id)
+			}
+			rhs = x.Values
+		default:
+			return true
+		}
+		if len(rhs) != 1 || len(lhs) == 0 {
+			return true
+		}
+		if ce, ok := rhs[0].(*ast.CallExpr); ok && match(ce) {
+			if id, ok := lhs[0].(*ast.Ident); ok && nz.local(id.Obj) {
+				found = id.Obj
+			}
+		}
+		return true
+	})
+	return found
+}
+
+var tokenRe = regexp.MustCompile(`‹@(\d+)›`)
+
+// renumber: position tokens → ‹k›, k = order of first appearance in lines
+func renumber(lines []string) []string {
+	idx := map[string]int{}
+	out := make([]string, len(lines))
+	for i, ln := range lines {
+		out[i] = tokenRe.ReplaceAllStringFunc(ln, func(t string) string {
+			k, ok := idx[t]
+			if !ok {
+				k = len(idx)
+				idx[t] = k
+			}
+			return fmt.Sprintf("‹%d›", k)
+		})
+	}
+	return out
 }
 
 // mentionsIdent: `name` occurs in s as a whole identifier
@@ -116,10 +313,10 @@ func mentionsIdent(s, name string) bool {
 	return false
 }
 
-// identUses: every use of the identifier `name` in a function body, in source order, shown as
-// the innermost call it is an argument or the receiver of (`f(name, …)`, `name.M()`), or as
+// identUses: every use of the identifier `name` (a parameter) in a function body, in source order,
+// shown as the innermost call it is an argument or the receiver of (`f(name, …)`, `name.M()`), or as
 // `ASSIGN <stmt>` where it is assigned or redeclared
-func identUses(body *ast.BlockStmt, name string) []string {
+func (nz *normalizer) identUses(body *ast.BlockStmt, name string) []string {
 	var out []string
 	var stack []ast.Node
 	ast.Inspect(body, func(n ast.Node) bool {
@@ -134,16 +331,16 @@ func identUses(body *ast.BlockStmt, name string) []string {
 				case *ast.AssignStmt:
 					for _, lhs := range p.Lhs {
 						if l, ok := lhs.(*ast.Ident); ok && l == id {
-							shown = "ASSIGN " + src(p)
+							shown = "ASSIGN " + nz.src(p)
 						}
 					}
 					if shown == "" {
-						shown = "STMT " + src(p)
+						shown = "STMT " + nz.src(p)
 					}
 				case *ast.CallExpr:
-					shown = src(p)
+					shown = nz.src(p)
 				case ast.Stmt:
-					shown = "STMT " + src(p)
+					shown = "STMT " + nz.src(p)
 				}
 			}
 			if shown == "" {
@@ -178,26 +375,26 @@ func wrapLines(lines []string, n int) []string {
 	return out
 }
 
-func skeleton(stmts []ast.Stmt, depth int) []string {
+func (nz *normalizer) skeleton(stmts []ast.Stmt, depth int) []string {
 	pre := strings.Repeat("| ", depth)
 	var out []string
 	add := func(s string) { out = append(out, pre+s) }
 	for _, st := range stmts {
 		switch s := st.(type) {
 		case *ast.ExprStmt:
-			if ce, ok := s.X.(*ast.CallExpr); ok && src(ce.Fun) == "r.debugf" {
+			if ce, ok := s.X.(*ast.CallExpr); ok && nz.src(ce.Fun) == "r.debugf" {
 				continue
 			}
-			add(src(s))
+			add(nz.src(s))
 		case *ast.IfStmt:
-			out = append(out, skelIf(s, depth, "if ")...)
+			out = append(out, nz.skelIf(s, depth, "if ")...)
 		case *ast.SwitchStmt:
 			h := "switch"
 			if s.Init != nil {
-				h += " " + src(s.Init) + ";"
+				h += " " + nz.src(s.Init) + ";"
 			}
 			if s.Tag != nil {
-				h += " " + src(s.Tag)
+				h += " " + nz.src(s.Tag)
 			}
 			add(h)
 			for _, c := range s.Body.List {
@@ -207,46 +404,46 @@ func skeleton(stmts []ast.Stmt, depth int) []string {
 				} else {
 					es := make([]string, len(cc.List))
 					for i, e := range cc.List {
-						es[i] = src(e)
+						es[i] = nz.src(e)
 					}
 					add("case " + strings.Join(es, ", ") + ":")
 				}
-				out = append(out, skeleton(cc.Body, depth+1)...)
+				out = append(out, nz.skeleton(cc.Body, depth+1)...)
 			}
 		case *ast.BlockStmt:
-			out = append(out, skeleton(s.List, depth+1)...)
+			out = append(out, nz.skeleton(s.List, depth+1)...)
 		case *ast.ForStmt:
 			h := "for"
 			if s.Cond != nil {
-				h += " " + src(s.Cond)
+				h += " " + nz.src(s.Cond)
 			}
 			add(h)
-			out = append(out, skeleton(s.Body.List, depth+1)...)
+			out = append(out, nz.skeleton(s.Body.List, depth+1)...)
 		case *ast.RangeStmt:
-			add("for range " + src(s.X))
-			out = append(out, skeleton(s.Body.List, depth+1)...)
+			add("for range " + nz.src(s.X))
+			out = append(out, nz.skeleton(s.Body.List, depth+1)...)
 		default:
-			add(src(st))
+			add(nz.src(st))
 		}
 	}
 	return out
 }
 
-func skelIf(s *ast.IfStmt, depth int, kw string) []string {
+func (nz *normalizer) skelIf(s *ast.IfStmt, depth int, kw string) []string {
 	pre := strings.Repeat("| ", depth)
 	h := kw
 	if s.Init != nil {
-		h += src(s.Init) + "; "
+		h += nz.src(s.Init) + "; "
 	}
-	h += src(s.Cond)
+	h += nz.src(s.Cond)
 	out := []string{pre + h}
-	out = append(out, skeleton(s.Body.List, depth+1)...)
+	out = append(out, nz.skeleton(s.Body.List, depth+1)...)
 	switch e := s.Else.(type) {
 	case *ast.IfStmt:
-		out = append(out, skelIf(e, depth, "else if ")...)
+		out = append(out, nz.skelIf(e, depth, "else if ")...)
 	case *ast.BlockStmt:
 		out = append(out, pre+"else")
-		out = append(out, skeleton(e.List, depth+1)...)
+		out = append(out, nz.skeleton(e.List, depth+1)...)
 	}
 	return out
 }
